@@ -94,6 +94,18 @@ Round 7 addition:
     `t.__setattr__(key, value)` for every task of the list -> REFUTED; the guards of the __setattr__ body on the attribute name
     (`key.startswith('_')`) are evaluated for the stored name, so `path._x = ..` stays on the list object.
 
+Round 8 additions:
+  * dataclass network classes: the generated __init__ is written out in the parsed tree (_synth_dataclass_inits);
+  * passes that hand back the memoised time (`return node.<field>` on every path): `self.__forward(link.start) + link.units` is
+    read as link.start.<field> + link.units, the recursive call being the read;
+  * RelEval: explicit-stack traversals (`pending = [task]; while pending: cur = pending.pop(); .. pending.extend(cur.children)`):
+    the popped element ranges over the seeds and all their descendants; leaf tests through a local alias of cur.children;
+  * constructor: `seeds = [t for t in tasks if <cond>]; for s in seeds: insert(s)` - the filters are conditions of the insert;
+  * C12.passes: nodes joined to the sink chosen by the tasks' declared successors / predecessors instead of the network's link
+    lists -> REFUTED;
+  * C12.pure: writes to a module-level table (a process-wide cache) are not WBS state; a write whose receiver's origin was lost
+    is judged by the receiver's class (network classes: fine; task / list classes: REFUTED; unknown: UNDECIDED).
+
 Not decided: exactness of the longest-path result as a number (magnitude of the tolerance - a constant above 1e-3 is
 reported UNDECIDED -, float rounding inside the folds), "never empty when the WBS has a leaf" (follows from the clauses,
 not checked on its own), acyclicity handling (the property quantifies over acyclic WBSs), the end_date != None mode
@@ -414,6 +426,73 @@ def _reparse_keeping(ctx, keep: set):
     ctx.cg = CallGraph(new, ctx.typer)
 
 
+def _synth_dataclass_inits(ctx):
+    """`@dataclass class _PLink: units: float; start: _PNode; end: _PNode` has no __init__ in the source; the generated one is
+    written out (in the parsed tree of this run) so that constructor calls resolve and the field <- parameter copies are visible:
+    fields without default and fields with a plain default become parameters, `field(default_factory=F)` fields get `F()`"""
+    prog = ctx.prog
+    if getattr(prog, '_c12_dataclass_inits', False):
+        return
+    prog._c12_dataclass_inits = True
+    entry = prog.funcs.get(ENTRY)
+    if entry is None:
+        return
+    ctor = _calculator_ctors(ctx.cg, entry)
+    if len(ctor) != 1:
+        return
+    mod = ctor[0].targets[0].module
+    for ci in list(prog.classes.values()):
+        if ci.module is not mod or ci.dataclass_frozen is None or '__init__' in ci.methods:
+            continue
+        params, defaults, body = [ast.arg(arg='self')], [], []
+        ok = True
+        for st in ci.node.body:
+            if not isinstance(st, ast.AnnAssign) or not isinstance(st.target, ast.Name):
+                continue
+            if 'ClassVar' in src(st.annotation):
+                continue
+            name = st.target.id
+            v = st.value
+            tgt = ast.Attribute(value=ast.Name(id='self', ctx=ast.Load()), attr=name, ctx=ast.Store())
+            if isinstance(v, ast.Call) and getattr(v.func, 'id', getattr(v.func, 'attr', None)) == 'field':
+                kws = {k.arg: k.value for k in v.keywords}
+                if 'default_factory' in kws:
+                    fac = kws['default_factory']
+                    val = ast.List(elts=[], ctx=ast.Load()) if getattr(fac, 'id', None) == 'list' else \
+                        ast.Dict(keys=[], values=[]) if getattr(fac, 'id', None) == 'dict' else ast.Call(func=fac, args=[], keywords=[])
+                    body.append(ast.Assign(targets=[tgt], value=val))
+                    continue
+                if kws.get('init') is not None and isinstance(kws['init'], ast.Constant) and kws['init'].value is False:
+                    if 'default' in kws:
+                        body.append(ast.Assign(targets=[tgt], value=kws['default']))
+                    continue
+                v = kws.get('default')
+            if v is None and defaults:
+                ok = False          # a field without default after one with default: not a valid dataclass
+                break
+            params.append(ast.arg(arg=name, annotation=st.annotation))
+            if v is not None:
+                defaults.append(v)
+            body.append(ast.Assign(targets=[tgt], value=ast.Name(id=name, ctx=ast.Load())))
+        if not ok:
+            continue
+        fd = ast.FunctionDef(name='__init__', args=ast.arguments(posonlyargs=[], args=params, vararg=None, kwonlyargs=[],
+                                                                 kw_defaults=[], kwarg=None, defaults=defaults),
+                             body=body or [ast.Pass()], decorator_list=[], returns=None, type_comment=None)
+        try:
+            fd.type_params = []
+        except Exception:       # noqa: BLE001
+            pass
+        ast.copy_location(fd, ci.node)
+        ast.fix_missing_locations(fd)
+        ci.node.body.append(fd)
+        f = Func(f"{ci.qual}.__init__", '__init__', fd, mod, ci.name, 'method', None, None)
+        prog.funcs[f.qual] = f
+        prog._by_node[id(fd)] = f
+        ci.methods['__init__'] = f
+        prog.normalisation_log = list(getattr(prog, 'normalisation_log', [])) + [f"c12: wrote out the dataclass __init__ of {ci.name}"]
+
+
 def _hoist(ctx):
     """before anything of the calculator is analysed: helpers that the reference tree does not have and that are called inside
     an expression (`for n in self.__nodes + [self.__attach_terminal_nodes()]`) are spliced into their callers, so that the
@@ -455,6 +534,7 @@ def check(ctx):
     R = None
     first_error = None
     try:
+        _synth_dataclass_inits(ctx)
         _hoist(ctx)
         R = Roles(ctx)
     except AnalysisError as e:
@@ -468,6 +548,7 @@ def check(ctx):
         for keep in attempts:
             try:
                 _reparse_keeping(ctx, keep)
+                _synth_dataclass_inits(ctx)
                 _hoist(ctx)
                 R = Roles(ctx)
                 break
@@ -1000,7 +1081,17 @@ def _leaf_arcs(ctx, R: Roles, model, o):
             itx = exi.expand(fors[-1].iter, icfg.node_of(fors[-1]))
         except Exception:       # noqa: BLE001
             itx = fors[-1].iter
-        if not all_tasks(itx):
+        cparts = facts.comp_parts(itx)
+        if not all_tasks(itx) and cparts and isinstance(cparts[1], ast.Name) and isinstance(cparts[0], ast.Name) \
+                and cparts[0].id == cparts[1].id and all_tasks(cparts[2]):
+            # `seeds = [t for t in tasks if <cond>]; for seed in seeds: insert(seed)`: the filters are conditions of the insert
+            from sa.flow import subst as _subst
+            for flt_ in cparts[3]:
+                fx_ = _subst(flt_, {cparts[1].id: ast.Name(id=lv_, ctx=ast.Load())})
+                cs += facts.split_conj(_reduce_when_none(fx_, end_p, end_attr_), True)
+            if any(_dead_when_none(t, p, end_p, end_attr_) for t, p in cs):
+                continue
+        elif not all_tasks(itx):
             unclear.append((c, f"the loop ranges over `{src(itx)[:60]}`, not plainly over `{tasks_p}`"))
             continue
         rest = []
@@ -2064,7 +2155,17 @@ def _passes(ctx, R: Roles, model, o, o_eq):
                 o.refute(calc, c, c, f"the common sink is attached to the nodes without INCOMING links (`{IN}` empty): chain ends "
                                      f"keep their own length as latest time")
             else:
-                o.undecided(calc, c, c, "nodes joined to the sink are not `[n for n in self.<nodes> if len(n.<outgoing>) == 0]`")
+                rel_reads = sorted({x.attr for x in ast.walk(it) if isinstance(x, ast.Attribute)
+                                    and x.attr in ('successors', 'predecessors', 'all_successors', 'all_predecessors')})
+                topo_reads = any(isinstance(x, ast.Attribute) and x.attr in (OUT, IN) for x in ast.walk(it))
+                if rel_reads and not topo_reads:
+                    o.refute(calc, c, it, f"the nodes joined to the common sink are chosen by the tasks' declared `.{rel_reads[0]}` "
+                                          f"(`{src(it)[:80]}`), not by the network (`len(n.{OUT}) == 0`): a work whose successors are "
+                                          f"all outside the network (removed from the WBS, another WBS) has no outgoing link and is "
+                                          f"not joined to the sink either, so it takes its own earliest time as latest time and "
+                                          f"looks critical whatever its length")
+                else:
+                    o.undecided(calc, c, c, "nodes joined to the sink are not `[n for n in self.<nodes> if len(n.<outgoing>) == 0]`")
         elif isinstance(e, ast.Name) and e.id == lv and fresh_node(s):
             # source -> node (optional: sources get 0 anyway)
             zero_set = ctor_zero(s)
@@ -2339,7 +2440,27 @@ def _check_pass(ctx, R, o, p: Func, what: str, field, op, links, far, sign, othe
         bad = True
         o.refute(p, st, itx, f"{what} pass iterates {node_p}.{m['a']} instead of {node_p}.{links} "
                              f"({'incoming' if what == 'forward' else 'outgoing'} links)")
-    l = lin(fo.term)
+    # the pass may hand back the memoised time (`return node.<field>` on every path): `self.__forward(link.start) + link.units`
+    # then reads link.start.<field> right after computing it
+    term = fo.term
+    rets_p = [r_ for r_ in walk_no_nested(p.node) if isinstance(r_, ast.Return)]
+    returns_field = bool(rets_p) and all(r_.value is not None and match(f"{node_p}.{field}", r_.value) for r_ in rets_p) and \
+        isinstance(p.body[-1], ast.Return)
+    rec_in_term = []
+    if returns_field:
+        import copy as _copy
+
+        class _RecRead(ast.NodeTransformer):
+            def visit_Call(self, n):
+                self.generic_visit(n)
+                fn_ = n.func
+                nm_ = unmangle(fn_.attr) if isinstance(fn_, ast.Attribute) else getattr(fn_, 'id', None)
+                if nm_ == p.name and len(n.args) == 1 and not n.keywords:
+                    rec_in_term.append(n.args[0])
+                    return ast.Attribute(value=n.args[0], attr=field, ctx=ast.Load())
+                return n
+        term = _RecRead().visit(_copy.deepcopy(term))
+    l = lin(term)
     want = sorted([(+1, f"{lv}.{far}.{field}"), (sign, f"{lv}.units")])
     if l != want:
         bad = True
@@ -2348,6 +2469,7 @@ def _check_pass(ctx, R, o, p: Func, what: str, field, op, links, far, sign, othe
         else:
             o.undecided(p, st, fo.term, f"{what} pass folds `{src(fo.term)[:90]}`, not a +/- combination of link fields")
             return
+    rec_read_ok = bool(rec_in_term) and all(match(f"{lv}.{far}", a_) for a_ in rec_in_term)
     # start value / sink value
     if what == 'forward':
         iv = facts.const_num(fo.init) if fo.init is not None else None
@@ -2421,7 +2543,9 @@ def _check_pass(ctx, R, o, p: Func, what: str, field, op, links, far, sign, othe
         else:
             verdicts.append(('late', c, ''))
     oks = [v for v in verdicts if v[0] == 'ok']
-    if oks:
+    if rec_read_ok:
+        o.site(p, st, f"{lv}.{far}.{field} is read as the value the recursive call {p.name}({lv}.{far}) returns")
+    elif oks:
         o.site(p, oks[0][1], f"{lv}.{far} is computed (recursively) before its {field} is read")
     elif any(v[0] == 'late' for v in verdicts):
         c = next(v[1] for v in verdicts if v[0] == 'late')
@@ -2763,8 +2887,47 @@ def _pure(ctx, R: Roles, o):
     entry = R.entry
     reach = eff.reach([entry])
     ws = eff.writes_star(entry)
+
+    def process_global_only(fld, funcs) -> Optional[str]:
+        """name of the module-level container when every write of `fld` with an unknown root among funcs goes to a module global
+        (a process-wide cache such as a table of compiled patterns): that is state of the process, not of the WBS"""
+        names = set()
+        found = False
+        for f_ in funcs:
+            for w in eff.direct_writes(f_):
+                if w.field != fld or w.root != 'unknown':
+                    continue
+                found = True
+                b_ = w.recv
+                while isinstance(b_, (ast.Subscript, ast.Attribute)):
+                    b_ = b_.value
+                if not (isinstance(b_, ast.Name) and not flow_of(f_).defs_of(b_.id) and b_.id not in f_.params and any(
+                        isinstance(st_, (ast.Assign, ast.AnnAssign)) and any(isinstance(t_, ast.Name) and t_.id == b_.id for t_ in (
+                            st_.targets if isinstance(st_, ast.Assign) else [st_.target])) for st_ in f_.module.tree.body)):
+                    return None
+                names.add(f"{f_.module.name}.{b_.id}")
+        return ', '.join(sorted(names)) if found and names else None
+
     for key in sorted(ws):
         fld, root = key
+        if root == 'unknown':
+            g_ = process_global_only(fld, reach)
+            if g_:
+                o.site(entry, entry.node, f"write to the module-level table {g_} (process state, not the WBS)")
+                continue
+            # the provenance of the receiver was lost (e.g. an argument built from a comprehension variable); its class still says
+            # whose state it is: network objects are made by the calculator, task / list classes are the WBS
+            dws_ = [w for f_ in reach for w in eff.direct_writes(f_) if w.field == fld and w.root not in ('fresh',)]
+            types_ = {base(w.recv_type) if w.recv_type else None for w in dws_}
+            if dws_ and types_ <= {R.cls, R.node_cls, R.link_cls}:
+                o.site(entry, entry.node, f"`{unmangle(fld)}` is written on {', '.join(sorted(types_))} objects only (made by the calculator)")
+                continue
+            if dws_ and not (types_ & set(OWN_TASK_CLASSES)):
+                chain = eff.explain(entry, key)
+                o.undecided(entry, entry.node, f"{unmangle(fld)}@{root}",
+                            f"WBS.critical_path may write `{unmangle(fld)}` of an object whose origin and class the analysis lost: "
+                            + ' -> '.join(chain[-2:]))
+                continue
         chain = eff.explain(entry, key)
         o.refute(entry, entry.node, f"{unmangle(fld)}@{root}",
                  f"WBS.critical_path may write `{unmangle(fld)}` of an object reachable from {root} (not allocated by the call): "
@@ -2859,6 +3022,8 @@ def _pure(ctx, R: Roles, o):
                 for fld, root in sorted(ws2):
                     r2 = eff._translate(root, ci, callee, f, bind)
                     if r2 == 'fresh':
+                        continue
+                    if r2 == 'unknown' and process_global_only(fld, eff.reach([callee])):
                         continue
                     bad += 1
                     msg = (f"`{src(ci.node)[:70]}` reaches {callee.qual}, which writes `{unmangle(str(fld))}` of an object not allocated "
